@@ -57,7 +57,11 @@ func runC14(p *Prog, r *Report) {
 	// analysis as C13-R3): both are uint64, so swapping them compiles and no test looks at the figures
 	{
 		sub := NewReport("C14", "quick")
+		// C13's rules are written against the anchors with their unexported helpers expanded
+		saved := p.AnchorsInlined
+		p.AnchorsInlined = true
 		c13R3(p, sub)
+		p.AnchorsInlined = saved
 		r.Rule("C14-R9", "TCP session figures keep their direction: "+sub.RuleDocs["C13-R3"])
 		for _, o := range sub.Obs {
 			o.Rule = "C14-R9"
